@@ -246,6 +246,7 @@ def install(intr_cls):
         L.entry = st.copy()
         name = f"{fi.qualname}/loop{ordinal}"
         # --- initiation
+        L.pos_now = z3.IntVal(0)       # ordered loops: number of elements visited in the state the invariant is asked for
         for (label, cl) in spec.invariant(L, st, lambda j: z3.BoolVal(False)):
             eng.loop_goal(f"{name}/initiation:{label}", st, cl)
         # --- arbitrary iteration
@@ -268,6 +269,7 @@ def install(intr_cls):
         else:
             visF = smt.fresh("visited", z3.ArraySort(IntS, BoolS))
             vis = lambda j: z3.Select(visF, j)
+        L.pos_now = pos if ordered else None
         for (label, cl) in spec.invariant(L, h, vis):
             h.assume(cl)
         exit_state = h.copy()
@@ -286,6 +288,7 @@ def install(intr_cls):
         h.trace.append((("loop-iteration", name), True))
         vis2 = (lambda j: z3.And(j >= 0, j < pos + 1)) if ordered else (lambda j: z3.Or(z3.Select(visF, j), j == i))
         L.sk["$pos_next"] = (pos + 1) if ordered else None
+        L.pos_now = (pos + 1) if ordered else None
         L.sk["$iter"] = i
         if eng.feasible(h):
             for (x, o) in eng.assign(s.target, seq.elem(i), h):
